@@ -257,7 +257,8 @@ func (p *proxy) serveStream(w http.ResponseWriter, r *http.Request) {
 		}
 	}
 	w.WriteHeader(resp.StatusCode)
-	p.note("attached")
+	p.note("attached") // queued before the standby can react to the status line
+	fl.Flush()         // the active has answered, i.e. registered the client: let the standby see the status now
 
 	ch := make(chan []byte)
 	go func() {
